@@ -15,6 +15,8 @@ pub mod findings;
 pub mod cbor;
 pub mod cmodel;
 pub mod comments;
+pub mod cddl_abnf;
+pub mod earley;
 pub mod jsonw;
 pub mod parents;
 pub mod sample;
